@@ -22,17 +22,23 @@ import (
 type c09AppSnap struct {
 	ok    bool
 	power map[string]int64             // operator -> consensus power of the bonded validators
+	jailed map[string]bool             // operators that are jailed
 	keys  map[string]map[string]string // chain -> operator -> external address
 }
 
 func c09AppSnapshot(c *apph.Chain) (c09AppSnap, error) {
-	s := c09AppSnap{ok: true, power: map[string]int64{}, keys: map[string]map[string]string{}}
+	s := c09AppSnap{ok: true, power: map[string]int64{}, jailed: map[string]bool{}, keys: map[string]map[string]string{}}
 	var vr stakingtypes.QueryValidatorsResponse
-	if err := c.Query("/cosmos.staking.v1beta1.Query/Validators", &stakingtypes.QueryValidatorsRequest{Status: stakingtypes.BondStatusBonded}, &vr); err != nil {
+	if err := c.Query("/cosmos.staking.v1beta1.Query/Validators", &stakingtypes.QueryValidatorsRequest{}, &vr); err != nil {
 		return s, err
 	}
 	for _, v := range vr.Validators {
-		s.power[v.OperatorAddress] = v.ConsensusPower(sdk.DefaultPowerReduction)
+		if v.IsBonded() {
+			s.power[v.OperatorAddress] = v.ConsensusPower(sdk.DefaultPowerReduction)
+		}
+		if v.Jailed {
+			s.jailed[v.OperatorAddress] = true
+		}
 	}
 	for _, ch := range []string{"ethereum", "minter"} {
 		var kr mhubtypes.DelegateKeysResponse
@@ -118,21 +124,28 @@ func c09AppObserver() appObserver {
 		if !prev.ok {
 			return nil
 		}
-		// blocks without staking messages: whoever is no longer bonded after the block was jailed by x/slashing / x/evidence in
-		// its BeginBlock - before the bridge's BeginBlocker ran (the module order of app.go), so "the then-current validator
-		// set" of that BeginBlocker is the previous block's set without them
-		jailBlock := op == "Absent2" || op == "DoubleSign2"
-		noStakingMsgs := !(op == "UndelegateAll1" || op == "UndelegateHalf1" || op == "Delegate0" || op == "Unjail2")
+		// x/slashing and x/evidence jail in their BeginBlockers, which app.go places before the bridge's: a validator jailed there
+		// has left the power index when the bridge compares, so "the then-current validator set" of that BeginBlocker is the
+		// previous block's set without it. (Downtime is punished in the BeginBlock AFTER the window has filled - not
+		// necessarily in a block whose own commit misses the signature.) A validator jailed by a message of this block
+		// (the operator withdrawing its self-delegation) was still in the set when the block began.
+		jailBlock := false
+		still := map[string]int64{}
+		for v, p := range prev.power {
+			begunJailed := cur.jailed[v] && !prev.jailed[v] && !((op == "UndelegateAll1" || op == "UndelegateHalf1") && v == sdk.ValAddress(c.Vals[1].Oper).String())
+			if begunJailed {
+				jailBlock = true
+				continue
+			}
+			still[v] = p
+		}
 		for _, ch := range []string{"ethereum", "minter"} {
 			var lr mhubtypes.SignerSetTxResponse
 			if err := c.Query("/mhub2.v1.Query/LatestSignerSetTx", &mhubtypes.LatestSignerSetTxRequest{ChainId: ch}, &lr); err != nil {
 				return &engine.Violation{Property: "C09", Rule: "application_query_failed", Site: "app", Detail: err.Error()}
 			}
 			set := lr.SignerSet
-			refs := []map[string]*big.Int{prev.expected(ch, nil)}
-			if noStakingMsgs {
-				refs = []map[string]*big.Int{prev.expected(ch, cur.power)}
-			}
+			refs := []map[string]*big.Int{prev.expected(ch, still)}
 			limit := new(big.Int).Div(new(big.Int).Mul(big.NewInt(5), big.NewInt(1<<32-1)), big.NewInt(100))
 			best := (*big.Int)(nil)
 			for _, r := range refs {
